@@ -1405,10 +1405,17 @@ def _mp_visit_worker(ready_queue, done_event, callback):
     from queue import Empty
 
     while True:
+        # Sample the "done" flag *before* waiting on the queue. The producer
+        # only raises it once every item has been flushed into the queue, so
+        # an empty queue observed after the flag was seen means that there is
+        # truly nothing left. Checking the flag after the timeout instead can
+        # strand items that arrive in between.
+        done = done_event.is_set()
+
         try:
             args = ready_queue.get(True, timeout=1)
         except Empty:
-            if done_event.is_set():
+            if done:
                 break
             continue
 
